@@ -47,6 +47,9 @@ G_New(e, as) ==
 G_Intersection(e, as, want, ops) ==
     F(e.has = want, "G_C12_Intersection", "Add:" \o ops)
     \cup F(e.hasX = want, "G_C12_Intersection", "Intersection:" \o ops)
+    \cup F(e.hasShared = want, "G_C12_Intersection", "Add-shared-operands:" \o ops)
+    \cup F(Len(e.hasPod) = 0 \/ e.hasPod = want, "G_C12_Intersection", "PodRequirements:" \o ops)
+    \cup F(e.hasNewAfter = e.hasNew, "G_C12_Intersection", "operands-modified:" \o ops)
 
 G_HasIntersection(e, want, ops) ==
     LET nonEmpty == \E j \in DOMAIN want : want[j]
@@ -78,16 +81,20 @@ G_Compatible(e, as, UU) ==
 
 \* serialisation: the entries admit exactly what the chain admits; re-parsing gives the same requirement and the
 \* same reading of an absent label (as the scheduler itself reads it: Compatible against an empty left side).
-\* One signature per event: the first failing aspect in the order values > round trip > absent label.
+\* `ncs` holds the ToNodeClaim outcomes: entry i = n is the NodePool carrying the whole chain, entry i < n a NodePool
+\* carrying the first i atoms plus a pod carrying the rest (added the way the scheduler adds pod requirements).
+\* One signature per event: the first failing aspect in the order values > ToNodeClaim > round trip > absent label.
 G_Serialization(e, as, want, mx) ==
     LET cls == IF HasBound(as) /\ HasNotIn(as) THEN "bounded-notin" ELSE "other"
         Aspect(ser) == LET sv == HasVec(AtomsOf(ser)) IN IF sv # want THEN Dir(sv, want) ELSE "ok"
         a1 == Aspect(e.ser)
-        a2 == IF e.nc.ran /\ ~e.nc.panic THEN Aspect(e.nc.ser) ELSE "ok"
-        a3 == IF e.nc.ran /\ ~e.nc.panicStatic THEN Aspect(e.nc.serStatic) ELSE "ok"
+        NcAsp(x) == IF ~x.ran THEN "ok"
+                    ELSE IF ~x.panic /\ Aspect(x.ser) # "ok" THEN Aspect(x.ser)
+                    ELSE IF ~x.panicStatic /\ Aspect(x.serStatic) # "ok" THEN Aspect(x.serStatic)
+                    ELSE "ok"
+        badNc == {j \in DOMAIN e.ncs : NcAsp(e.ncs[j]) # "ok"}
         asp == IF a1 # "ok" THEN a1
-               ELSE IF a2 # "ok" THEN "ToNodeClaim:" \o a2
-               ELSE IF a3 # "ok" THEN "ToNodeClaim(static):" \o a3
+               ELSE IF badNc # {} THEN "ToNodeClaim:" \o NcAsp(e.ncs[CHOOSE j \in badNc : \A k \in badNc : j <= k])
                ELSE IF ~(e.reHas = want /\ e.reHas = e.has) THEN "roundtrip"
                ELSE IF e.absRe # e.absIn THEN "absent-label"
                ELSE "ok"
@@ -100,16 +107,19 @@ G_AnyAdmitted(e, as) ==
     LET cls == IF HasBound(as) /\ HasNotIn(as) THEN "excluded-value:bounded-notin"
                ELSE IF HasNotIn(as) THEN "excluded-value:notin" ELSE "other"
         OK(x) == x.s = "" \/ AdmitsAll(as, x)
-    IN F((e.valid => \A j \in DOMAIN e.any : OK(e.any[j])) /\ ((e.nc.ran /\ e.nc.hasLabel) => OK(e.nc.label)),
+    IN F(/\ (e.valid => \A j \in DOMAIN e.any : OK(e.any[j]))
+         /\ \A j \in DOMAIN e.ncs : (e.ncs[j].ran /\ e.ncs[j].hasLabel) => OK(e.ncs[j].label),
          "G_C13_AnyAdmitted", cls)
 
+\* no panic in Any() for validated chains, nor in ToNodeClaim for validated pools (+ pods the scheduler admits)
 G_NoPanic(e, as, want) ==
     LET anyP == e.valid /\ e.anyPanic
-        ncP  == e.nc.ran /\ (e.nc.panic \/ e.nc.panicStatic)
+        ncP  == \E j \in DOMAIN e.ncs : e.ncs[j].ran /\ (e.ncs[j].panic \/ e.ncs[j].panicStatic)
         onlyNeg == /\ HasBound(as) /\ \E j \in DOMAIN want : want[j]
                    /\ \A j \in DOMAIN want : want[j] => (uni[j].i /\ uni[j].n < 0)
-    IN F(~anyP /\ ~ncP, "Inv_C13_NoPanic", (IF anyP THEN "Any:" ELSE "ToNodeClaim-only:")
-                                            \o (IF onlyNeg THEN "only-negative-integers-admitted" ELSE "other"))
+        negLower == \E j \in DOMAIN as : (as[j].op = "Gt" /\ as[j].b + 1 < 0) \/ (as[j].op = "Gte" /\ as[j].b < 0)
+    IN F(~anyP /\ ~ncP, "Inv_C13_NoPanic", IF onlyNeg THEN "only-negative-integers-admitted"
+                                          ELSE IF negLower THEN "negative-lower-bound" ELSE "other")
 
 \* scenario sanity (not a verdict): the logged universe must be witness complete for this chain
 G_Scenario(as, UU) ==
@@ -144,16 +154,17 @@ MultiFails ==
         At(S, K, k) == IF k \in K THEN S[k] ELSE <<>>
         SemKey(k, au) == SemCompatKey(k \in KA, At(SA, KA, k), k \in KB, At(SB, KB, k), au /\ k = "wk", UU)
         ClsKey == [k \in MK |-> CompatClass(k \in KA, At(SA, KA, k), k \in KB, At(SB, KB, k), UU)]
-        cls == IF MK = {} THEN "other"
-               ELSE ClsKey[CHOOSE k \in MK : \A k2 \in MK : ClassRank(ClsKey[k]) >= ClassRank(ClsKey[k2])]
+        \* class of a disagreement: highest-ranked class among the keys on which the semantics says "incompatible"
+        ClsOver(K) == IF K = {} THEN "other"
+                      ELSE ClsKey[CHOOSE k \in K : \A k2 \in K : ClassRank(ClsKey[k]) >= ClassRank(ClsKey[k2])]
         defined == \A k \in MK : K8sDefined(At(SA, KA, k)) /\ K8sDefined(At(SB, KB, k))
         sem0 == \A k \in MK : SemKey(k, FALSE)
         sem1 == \A k \in MK : SemKey(k, TRUE)
         semI == \A k \in KA \cap KB : SemKey(k, FALSE)
     IN IF ~defined THEN {}
-       ELSE F(e.ok = sem0, "G_C12_Compatible", CDir(~sem0) \o cls)
-            \cup F(e.okAU = sem1, "G_C12_Compatible", CDir(~sem1) \o cls)
-            \cup F(e.ints = semI, "G_C12_Compatible", CDir(~semI) \o cls)
+       ELSE F(e.ok = sem0, "G_C12_Compatible", CDir(~sem0) \o ClsOver({k \in MK : ~SemKey(k, FALSE)}))
+            \cup F(e.okAU = sem1, "G_C12_Compatible", CDir(~sem1) \o ClsOver({k \in MK : ~SemKey(k, TRUE)}))
+            \cup F(e.ints = semI, "G_C12_Compatible", CDir(~semI) \o ClsOver({k \in KA \cap KB : ~SemKey(k, FALSE)}))
 
 \* ---------------------------------------------------------------- bookkeeping
 Key(p) == p[1] \o "|" \o p[2]
